@@ -988,6 +988,36 @@ func genHandle(r *hx.Rng, c *catalogue, makeKey func(string, uint32) (genKey, bo
 		ents = append([]string{fmt.Sprintf("%d~%d~%d~%d~%s~%s", id, 2+r.Intn(2), 1+r.Intn(4), mat, "type.googleapis.com/verif.c12.Unknown"+fmt.Sprint(r.Intn(3)), hx.H(r.Bytes(r.Intn(24))))}, ents...)
 		tag = "fallback"
 	}
+	if r.Chance(10) {
+		// structurally invalid keysets: both sides must refuse them
+		tag = "invalid"
+		i := r.Intn(len(ents))
+		e := strings.Split(ents[i], "~")
+		switch r.Intn(5) {
+		case 0:
+			e[1] = hx.PickS(r, []string{"0", "4", "7"}) // unknown status
+		case 1:
+			e[2] = hx.PickS(r, []string{"0", "5", "9"}) // unknown prefix
+		case 2:
+			primary = uint32(r.U64()) // no such primary
+		case 3:
+			if len(ents) > 1 { // duplicate id
+				e[0] = strings.Split(ents[(i+1)%len(ents)], "~")[0]
+			} else {
+				e[1] = "2"
+			}
+		case 4:
+			for j := range ents { // primary not enabled
+				f := strings.Split(ents[j], "~")
+				if f[0] == fmt.Sprint(primary) {
+					f[1] = "2"
+					ents[j] = strings.Join(f, "~")
+				}
+			}
+			e = strings.Split(ents[i], "~")
+		}
+		ents[i] = strings.Join(e, "~")
+	}
 	keks := []string{"gcm", "gcm", "gcm", "gcmsiv", "xchacha", "chacha", "keyset"}
 	kk := hx.PickS(r, keks)
 	kb := r.Bytes(32)
